@@ -102,7 +102,9 @@ def _sock_script(draw, gen: int):
                 # link down, messages queued, the first connection fails while the head of the queue is written
                 ops.append(["down", 1, 0.0])
                 ops.append(["arm", [draw(st.sampled_from([2, 3]))]])
-            if pre in ("none", "down", "fault1", "fault2", "fault3") and draw(st.booleans()):
+            if pre in ("none", "down", "fault1", "fault2", "fault3", "chain") and draw(st.booleans()):
+                # stock policies are judged against the documented numbers (2 retries / 30 s, 0 / 30 s, 0 / 1 s) - also when
+                # the message keeps failing on connection after connection ("chain")
                 ops.append(["send", "T", draw(st.sampled_from(["idem", "nonidem", "conn"])), None])
             else:
                 ops.append(["send", "T", draw(st.integers(0, 3)), draw(st.sampled_from([2.0, 30.0] if pre in ("chain", "down_armed") else LIFETIMES))])
